@@ -187,6 +187,9 @@ func e1BaseGrid(tier string) []e1Grid {
 		{mcfg("ll", false, 7, "aacsbr"), "audio"},
 		{mcfg("fmp4", false, 3, "h265b"), "reorder"},
 		{mcfg("ll", false, 7, "h265b", "aac44"), "reorder"},
+		// Opus as the leading track (audio only): writes of three packets that last 20, 10 and 40 ms
+		{mcfg("fmp4", false, 3, "opus"), "audio"},
+		{mcfg("ll", false, 7, "opus", "aac44"), "audio"},
 		{mcfg("mpegts", false, 3, "h264"), "zero"},
 		{mcfg("fmp4", false, 3, "h264"), "zero"},
 		{mcfg("ll", false, 7, "h264", "aac44"), "zero"},
@@ -277,6 +280,26 @@ func e1Scens(prop, tier string) []e1Scen {
 	llp := mcfg("ll", false, 7, "h264")
 	llp.ParamDelta = "pps"
 	out = append(out, e1Scen{Prop: prop, Cfg: llp, Alpha: alphaParams(0), Depth: depth - 1, Mode: "tree", Name: "param-delta-tree"})
+	// long groups of pictures with one audio access unit per write: more than a hundred audio writes land in a segment before
+	// the next key frame (key frames every 3 s, SegmentMinDuration 1 s)
+	for _, variant := range []string{"mpegts", "fmp4", "ll"} {
+		cfg := mcfg(variant, false, 3, "h264", "aac44")
+		if variant == "ll" {
+			cfg.SegCount = 7
+		}
+		var gop []sym
+		for k := 0; k < 3; k++ {
+			kind := "n"
+			if k == 0 {
+				kind = "R"
+			}
+			gop = append(gop, sym{T: 0, D: "S", K: kind})
+			for a := 0; a < 43; a++ {
+				gop = append(gop, sym{T: 1, D: "c", N: 1})
+			}
+		}
+		out = append(out, e1Scen{Prop: prop, Cfg: cfg, Alpha: gop, Mode: "long", Len: 5 * len(gop), Name: "long-gop-many-audio-writes"})
+	}
 	if prop == "C05" {
 		// what is listed stays fetchable after a Write that failed in the middle of a rotation (the next segment's file
 		// could not be created) and after the writer has carried on; Low-Latency is left out: its playlist cannot be
